@@ -247,7 +247,7 @@ func scopes() map[string]*PropScope {
 			return &FnConfig{Classes: classSet([]string{"typestate", "post", "frame", "inv-entry", "inv-pres"}), PB: true}
 		},
 	})
-	add(&PropScope{ID: "C05", Closure: false, NoReplay: true, Technique: "contract-based deductive verification: reset obligations (every receiver field assigned on each successful DecodeFromBytes return) via ghost write flags, container and parser contracts, z3/cvc5",
+	add(&PropScope{ID: "C05", Closure: false, Technique: "contract-based deductive verification: reset obligations (every receiver field assigned on each successful DecodeFromBytes return) via ghost write flags, container and parser contracts, z3/cvc5",
 		Roots: func(e *Engine) []*ssa.Function {
 			return e.selectFns(func(f *ssa.Function) bool {
 				pk := e.pkgName(f)
